@@ -1,4 +1,5 @@
 import PcfgVerif.Properties.PQCore
+import PcfgVerif.Lemmas.SoftFloatLemmas
 /-!
 # C01 — guesses are emitted in non-increasing probability order
 
@@ -50,6 +51,46 @@ theorem C01_queueitem_consistent (A : PAlg P) (a b : P) :
     Generated.PQ.queueNe A.toPOps a b = !(Generated.PQ.queueEq A.toPOps a b) := by
   simp [Generated.PQ.queueLe, Generated.PQ.queueGt, Generated.PQ.queueGe, Generated.PQ.queueLt,
     Generated.PQ.queueNe, Generated.PQ.queueEq, POps.cmp, POps.lt]
+
+/-- **binary64 instance.**  The order theorem for IEEE-754 doubles with no floating-point hypothesis left:
+`sfAlg` is the model of CPython's `<=` and correctly rounded `*` on finite non-negative doubles
+(`Model/SoftFloat.lean`, checked bit-for-bit against the interpreter on every run), and its `PAlg` laws
+are proved (`SF.roundTo_mono`). -/
+theorem C01_order_binary64 (g : Grid Nat) (hwf : WF sfAlg.toPOps g) (s : PQState)
+    (h : Reach sfAlg.toPOps g (initNodes g) s) : NonIncreasing sfAlg.toPOps g s.popped :=
+  C01_order sfAlg g hwf s h
+
+/-- what the binary64 model is: correctly rounded (error ≤ half a unit in the last place at the scale
+chosen for the exact product), 53-bit significands, monotone, and closed on [0, 1] (so products of
+probabilities neither overflow nor leave the format) -/
+theorem C01_binary64_rounding (N k : Nat) :
+    (∃ m, SF.roundTo N k = m * 2 ^ SF.shiftOf (N / 2 ^ k) ∧ m ≤ 2 ^ 53) ∧
+    (∀ t, 2 * (N - SF.roundAt N t * 2 ^ t) ≤ 2 ^ t ∧ 2 * (SF.roundAt N t * 2 ^ t - N) ≤ 2 ^ t) ∧
+    (∀ N', N ≤ N' → SF.roundTo N k ≤ SF.roundTo N' k) ∧
+    (∀ a b, a ≤ SF.one → b ≤ SF.one → SF.mul a b ≤ SF.one) :=
+  ⟨SF.roundTo_significand N k, fun t => SF.roundAt_half N t, fun _ h => SF.roundTo_mono k h,
+    SF.mul_le_one⟩
+
+/-- non-vacuity of the binary64 instance: the 2×2 grid 0.5 · {0.5, 0.25}² is well-formed for `sfAlg`, its
+two middle nodes tie exactly (0.0625), and the model reproduces three doubles computed by CPython
+(`0.1*0.1 == 0.010000000000000002`, `5e-324*0.5 == 0.0` (ties to even), `1.5*5e-324 == 1e-323`);
+these three are tests, labelled as such — the run-time correspondence compares thousands more. -/
+def gB : Grid Nat := [⟨2 ^ 1073, [[2 ^ 1073, 2 ^ 1072], [2 ^ 1073, 2 ^ 1072]]⟩]
+
+theorem wfB : WF sfAlg.toPOps gB := by
+  intro s hs
+  simp only [gB, List.mem_singleton] at hs
+  subst hs
+  intro c hc
+  simp only [List.mem_cons, List.not_mem_nil, or_false, or_self] at hc
+  subst hc
+  exact ⟨by simp, by simp [sfAlg]; exact Nat.pow_le_pow_right (by decide) (by decide)⟩
+
+example : nodeProb sfAlg.toPOps gB ⟨0, [1, 0]⟩ = 2 ^ 1070 ∧ nodeProb sfAlg.toPOps gB ⟨0, [0, 1]⟩ = 2 ^ 1070 := by
+  decide +kernel
+
+example : (SF.ofBits 0x3FB999999999999A).map (fun a => SF.toBits (SF.mul a a)) = some 0x3F847AE147AE147C ∧
+    SF.mul 1 (2 ^ 1073) = 0 ∧ SF.mul 3 (2 ^ 1073) = 2 := by decide +kernel
 
 /-- non-vacuity: the concrete tied grid of `PQCore` is well-formed and its full run is ordered -/
 example : NonIncreasing natAlg.toPOps Pcfg.Example.g0 Pcfg.Example.final0.popped :=
